@@ -327,6 +327,24 @@ func runC04(c *Ctx) {
 					l.Del("taxes")
 				}
 				inputs = append(inputs, c04input{Origin: "regime-addon:" + r + ":" + a, Data: n.Bytes(), Class: "regime-addon"})
+				// the same with a first line whose combo names a rate key and a country: the
+				// document's own (calculation drops it again) and a foreign one
+				var combo *jmut.Node
+				for _, cat := range w.defs.Regimes[r].Categories {
+					if !cat.Retained && len(cat.Rates) > 0 {
+						combo = jmut.O(jmut.Member{Key: "cat", Val: jmut.S(cat.Code)}, jmut.Member{Key: "rate", Val: jmut.S(cat.Rates[0].Key)})
+						break
+					}
+				}
+				if combo != nil {
+					for _, cc := range []string{r, "FR", "PT"} {
+						n2 := n.Clone()
+						cb := combo.Clone()
+						cb.Set("country", jmut.S(cc))
+						n2.Get("lines").A[0].Set("taxes", jmut.Ar(cb))
+						inputs = append(inputs, c04input{Origin: "regime-addon-combo-country:" + r + ":" + a + ":" + cc, Data: n2.Bytes(), Class: "regime-addon"})
+					}
+				}
 			}
 		}
 	}
